@@ -17,6 +17,8 @@ Requests (`-` = absent bound; an lvalue step is `i=<v>` or `r=<lo>;<hi>`):
   rmi <s> <i>            x := s; r := remove x[i]; [r, x]
   rms <s> <lo> <hi>      x := s; r := remove x[lo:hi]; [r, x]
   upd <s> <k> <v>        s |.. [k, v]
+  popp <s> <step>…       x := s; r := pop x<steps>; [r, x]
+  rmip <s> <i> <step>…   x := s; r := remove x<steps>[i]; [r, x]
 Response: `<impl>\t<spec>`. -/
 import NoulithModel.Spec.PyIndex
 
@@ -172,6 +174,16 @@ def handle (args : List String) : String :=
   | ["rms", s, lo, hi] =>
     match val? s, bound? lo, bound? hi with
     | some s, some lo, some hi => bothP (Index.tryRemoveSlice s lo hi) (PyIndex.removeSlice s lo hi)
+    | _, _, _ => "bad-op"
+  | "popp" :: s :: steps =>
+    match val? s, steps? steps with
+    | some s, some ixs => bothP (Index.modPath s ixs Index.tryPop) (PyIndex.atPath s ixs PyIndex.pop)
+    | _, _ => "bad-op"
+  | "rmip" :: s :: i :: steps =>
+    match val? s, val? i, steps? steps with
+    | some s, some i, some ixs =>
+      bothP (Index.modPath s ixs fun v => Index.tryRemoveIndex v i)
+        (PyIndex.atPath s ixs fun v => PyIndex.removeIndex v i)
     | _, _, _ => "bad-op"
   | ["upd", s, k, v] =>
     match val? s, val? k, val? v with
